@@ -15,8 +15,16 @@ connection epochs):
 * `arr r k`      — the server receives `r` on connection epoch `k` (the client's write on `k`; a copy
                    written on an earlier epoch may arrive late);
 * `ack r k`, `res r k` — the server acknowledges / executes-and-answers the copy it received on `k`;
+* `rd r k`       — the client has read from the wire the acknowledgement / result that the server sent for
+                   the copy of `r` on epoch `k` (the connection's handler goroutine is about to hand it to
+                   the rpc engine, which registers it at `seen r`);
 * `seen r`       — the client's engine left its retry loop for `r` (ack or result processed);
-* `kill`         — the primary connection's transport dies;
+* `kill`         — the primary connection's transport dies and the connection's read loop notices first: it
+                   returns its error only after the handlers of the messages already read have finished,
+                   only then the rpc engine is force-closed;
+* `killw`        — … and another task of the connection (a writer: salts / ack / ping loop, the init
+                   callback) fails first: the engine is force-closed at once, whatever was read but not yet
+                   handled is dropped;
 * `fail r`       — `conn.Invoke` on a dead connection returns a retryable error (un-acknowledged request:
                    `ErrEngineClosed`; not yet initialised connection: `ErrConnDead` from `waitSession`;
                    failed write: `ErrConnDead`); `invokeConn` parks on the `connChanged` channel it captured;
@@ -48,6 +56,12 @@ structure Cfg where
   /-- `manager.Conn.Run` signals `dead` on every return (deferred), so an invocation parked in
   `waitSession` on a connection that dies before it is initialised gets `ErrConnDead` -/
   deadAlwaysSignalled : Bool
+  /-- an acknowledgement / result that the client has read from the wire is registered in the rpc engine
+  before the read loop's error can close that engine: `mtproto.Conn.readLoop` waits for its per-message
+  handler goroutines before it returns its read error (only then the connection's group is cancelled and
+  the engine force-closed), and `rpc.Engine.NotifyAcks` registers every id of a batch (an unknown id is
+  skipped) -/
+  readRegisters : Bool
   deriving Repr, DecidableEq
 
 /-- Position of the first occurrence of an operation code in a regenerated operation list. -/
@@ -68,6 +82,17 @@ def snapshotFromOps (ops : List Nat) : Bool :=
   opBefore ops 1 2 && opBefore ops 1 3 && opBefore ops 2 4 && opBefore ops 3 4 && opBefore ops 4 5 &&
   opBefore ops 5 6 && opBefore ops 6 7
 
+/-- Interpreted from the regenerated statement list of `mtproto.Conn.readLoop`: `defer handlers.Wait()`
+precedes the loop, every message is handled by a goroutine counted in (`handlers.Add(1)` before the `go`
+statement, `defer handlers.Done()` first inside), and no other goroutine handles messages. -/
+def readLoopWaits (ops : List Nat) : Bool :=
+  opBefore ops 1 2 && opBefore ops 2 3 && !ops.contains 4
+
+/-- Interpreted from the regenerated body of the loop of `NotifyAcks`: the lookup, then "unknown id:
+continue" (never leave the loop), then the registration. -/
+def ackBatchComplete (ops : List Nat) : Bool :=
+  opBefore ops 1 2 && opBefore ops 2 3 && !ops.contains 9
+
 def cfgOfSource : Cfg :=
   { unackedRetryable := Facts.C29.retryableIsDeadOrEngineClosed && Facts.C29.unackedCloseReportsCause &&
       Facts.C29.forceCloseCause && Facts.C29.waitsConnChanged && Facts.C29.replaceConnSignals
@@ -76,7 +101,8 @@ def cfgOfSource : Cfg :=
     sendErrorSurfaces := Facts.C29.sendErrorPlain && !Facts.C29.sendErrorMapped
     snapshotBeforeInvoke := snapshotFromOps Facts.C29.invokeLoopOps
     deadAlwaysSignalled := Facts.C29.connRunOps.contains 1 && opBefore Facts.C29.connRunOps 1 3 &&
-      Facts.C29.waitSessionCases.contains 2 }
+      Facts.C29.waitSessionCases.contains 2
+    readRegisters := readLoopWaits Facts.C29.readLoopOps && ackBatchComplete Facts.C29.notifyAcksOps }
 
 /-- Client-side state of one invocation.
 `ready`: in `invokeConn`, about to read `c.conn`; `bound k`: inside `conn.Invoke` on connection epoch
@@ -94,6 +120,7 @@ structure Req where
   phase : Phase
   reason : Reason
   ackSeen : Option Nat      -- epoch on which the client saw the acknowledgement / result
+  read : Option Nat         -- epoch on which the client has read the acknowledgement / result from the wire
   deriving DecidableEq, Repr
 
 structure State where
@@ -105,16 +132,18 @@ structure State where
   arrivals : List (Nat × Nat)   -- (request, epoch), newest first
   acks : List (Nat × Nat)
   results : List (Nat × Nat)
+  wdead : List Nat              -- epochs whose connection was torn down by a task other than the read loop
   deriving DecidableEq, Repr
 
 inductive Action
   | inv (r : Nat) | bind (r : Nat) | init | arr (r k : Nat) | ack (r k : Nat) | res (r k : Nat) | seen (r : Nat)
+  | rd (r k : Nat) | killw
   | kill | fail (r : Nat) | reconnect | retOk (r : Nat) | retErr (r : Nat) | sendFail (r : Nat) | close
   deriving DecidableEq, Repr
 
 def init (n : Nat) : State :=
-  { reqs := List.replicate n { phase := .idle, reason := .none, ackSeen := none },
-    epoch := 0, alive := true, closed := false, inited := [], arrivals := [], acks := [], results := [] }
+  { reqs := List.replicate n { phase := .idle, reason := .none, ackSeen := none, read := none },
+    epoch := 0, alive := true, closed := false, inited := [], arrivals := [], acks := [], results := [], wdead := [] }
 
 /-- `k` is not later than the epoch on which the acknowledgement was seen (if any). -/
 def notAfterAck : Option Nat → Nat → Bool
@@ -137,6 +166,26 @@ def setReq (s : State) (r : Nat) (q : Req) : State := { s with reqs := s.reqs.se
 
 /-- The connection of epoch `k` is dead: it was replaced, or it is the current one and its transport died. -/
 def connDead (s : State) (k : Nat) : Bool := decide (k < s.epoch) || !s.alive
+
+/-- The rpc engine registers what the server sent for `r`: if the copy written on the request's current
+epoch was acknowledged / answered, the request is acknowledged from now on. -/
+def seenStep (s : State) (r : Nat) : Option State :=
+  match s.reqs[r]? with
+  | some q =>
+    match q.phase with
+    | .sent k =>
+      if (r, k) ∈ s.acks ∨ (r, k) ∈ s.results then
+        some (setReq s r { q with phase := .acked k, ackSeen := some k })
+      else some s
+    | .idle => none
+    | _ => some s
+  | none => none
+
+/-- The acknowledgement / result of the copy on `k` has been read and is going to be registered before
+the engine of connection `k` is closed: the read loop waits for its handlers, the connection was not torn
+down by another task, the client is not being closed (its context would force-close the engine). -/
+def readPending (cfg : Cfg) (s : State) (q : Req) (k : Nat) : Bool :=
+  cfg.readRegisters && q.read == some k && !s.wdead.contains k && !s.closed
 
 def step (cfg : Cfg) (s : State) : Action → Option State
   | .inv r =>
@@ -165,17 +214,14 @@ def step (cfg : Cfg) (s : State) : Action → Option State
     | none => none
   | .ack r k => if (r, k) ∈ s.arrivals then some { s with acks := (r, k) :: s.acks } else none
   | .res r k => if (r, k) ∈ s.arrivals then some { s with results := (r, k) :: s.results } else none
-  | .seen r =>
+  | .seen r => seenStep s r
+  | .rd r k =>
     match s.reqs[r]? with
     | some q =>
-      match q.phase with
-      | .sent k =>
-        if (r, k) ∈ s.acks ∨ (r, k) ∈ s.results then
-          some (setReq s r { q with phase := .acked k, ackSeen := some k })
-        else some s
-      | .idle => none
-      | _ => some s
+      if q.phase = .sent k ∧ ((r, k) ∈ s.acks ∨ (r, k) ∈ s.results) then some (setReq s r { q with read := some k })
+      else some s
     | none => none
+  | .killw => if s.alive then some { s with alive := false, wdead := s.epoch :: s.wdead } else none
   | .kill => if s.alive then some { s with alive := false } else none
   | .fail r =>
     -- `conn.Invoke` returns a retryable error; `invokeConn` parks on `connChanged`
@@ -183,7 +229,8 @@ def step (cfg : Cfg) (s : State) : Action → Option State
     | some q =>
       match q.phase with
       | .sent k =>
-        if connDead s k ∧ cfg.unackedRetryable then
+        -- (not while an acknowledgement that was read is still going to be registered: `seen` comes first)
+        if connDead s k ∧ cfg.unackedRetryable ∧ readPending cfg s q k = false then
           some (setReq s r { q with phase := .parked (if cfg.snapshotBeforeInvoke then k else s.epoch) })
         else none
       | .bound k =>
